@@ -23,6 +23,8 @@ BINNINGS = {
     "A3": (np.array([0.1, 0.4 * (1.0 - 2e-6), 0.7, 1.0]), "right"),
     # the first two bins of A merged: every edge of D is an edge of A
     "D": (np.array([0.1, 0.7, 1.0]), "right"),
+    # a low-redshift binning that contains no object of patch 1 (see frames)
+    "E": (np.array([0.1, 0.25, 0.45]), "right"),
 }
 
 
@@ -42,8 +44,15 @@ def frames():
         df["z"] = z
         return df
 
-    new = edgy(data.frame(21, 60, NPATCH, sep_deg=3.0, spread_deg=1.6, int_weights=True))
-    old = edgy(data.frame(22, 40, NPATCH, sep_deg=3.0, spread_deg=1.6, int_weights=True))
+    def high_z_patch1(df):
+        # patch 1 of the catalogs under test holds objects at z > 0.5 only: empty in the low bins of every binning and
+        # without any object inside binning E
+        sel = (df["pid"] == 1) & (df["z"] < 0.5)
+        df.loc[sel, "z"] = 0.55 + 0.9 * df.loc[sel, "z"]
+        return df
+
+    new = high_z_patch1(edgy(data.frame(21, 60, NPATCH, sep_deg=3.0, spread_deg=1.6, int_weights=True)))
+    old = high_z_patch1(edgy(data.frame(22, 40, NPATCH, sep_deg=3.0, spread_deg=1.6, int_weights=True)))
     rnd = edgy(data.frame(23, 90, NPATCH, sep_deg=3.0, spread_deg=1.6, int_weights=True))
     unk = data.frame(24, 50, NPATCH, sep_deg=3.0, spread_deg=1.6, int_weights=True)
     return dict(new=new, old=old, rnd=rnd, unk=unk)
